@@ -210,10 +210,12 @@ theorem setitem_nodup {st st' : St} {i : Id} {t : T} {log : List (Id × J)}
           simp only [overwrite, bind, Except.bind] at h
           split at h
           · simp at h
-          · simp only [pure, Except.pure, Except.ok.injEq, Prod.mk.injEq] at h
-            rw [← h.1]
-            simp only [commit]
-            exact fold_put_nodup (fun v : J × T => v.1) _ _ hn
+          · split at h
+            · simp [throw, throwThe, MonadExceptOf.throw] at h
+            · simp only [pure, Except.pure, Except.ok.injEq, Prod.mk.injEq] at h
+              rw [← h.1]
+              simp only [commit]
+              exact fold_put_nodup (fun v : J × T => v.1) _ _ hn
 
 theorem storeAll_nodup : ∀ (ts : List T) (st st' : St) (log : List (Id × J)),
     storeAll st ts = .ok (st', log) → (st.backend.map Prod.fst).Nodup → (st'.backend.map Prod.fst).Nodup
